@@ -558,6 +558,9 @@ class Model:
             for name, e in n["attributes"]:
                 if name not in done:
                     self.attr(name, self.ev(e), None)
+            if n.get("selfclose"):
+                self.out.append(" />")
+                return
             self.out.append(">")
         if n["content"] is not None:
             mode, e = n["content"]
